@@ -306,11 +306,7 @@ func overlapOracle(c *Case) error {
 			}
 			bound, _ := c.Tree.Bind(texts)
 			be := bound.Model()
-			use := st
-			if len(open) == 1 {
-				use = st2 // the second execution runs in the other transaction
-			}
-			r, qerr := use.Query(args...)
+			r, qerr := st.Query(args...)
 			if d.Rejects(be, c.GroupBy) {
 				if qerr == nil {
 					r.Close()
@@ -320,6 +316,24 @@ func overlapOracle(c *Case) error {
 			}
 			if qerr != nil {
 				return fmt.Errorf("overlapping execution of %+q args %q: %v", text, texts, qerr)
+			}
+			w := d.Query(be, c.GroupBy)
+			open, wants = append(open, r), append(wants, &w)
+		}
+		// a third execution, of the statement prepared in the other transaction,
+		// while both result sets of the first are still unread
+		if len(open) == 2 {
+			e := lists[0]
+			args := make([]any, len(e))
+			texts := make([]string, len(e))
+			for i, a := range e {
+				args[i], texts[i] = a.any(), a.text()
+			}
+			bound, _ := c.Tree.Bind(texts)
+			be := bound.Model()
+			r, qerr := st2.Query(args...)
+			if qerr != nil {
+				return fmt.Errorf("execution of %+q args %q in a second transaction while the first has unread result sets: %v", text, texts, qerr)
 			}
 			w := d.Query(be, c.GroupBy)
 			open, wants = append(open, r), append(wants, &w)
